@@ -471,7 +471,7 @@ def explore(fn, max_paths=20000, roots=None, catch=()):
             exc = 'stopped'
         except catch as e:  # noqa
             exc = e
-        except (ModelGap, Inconclusive, AssertionError):
+        except (ModelGap, Inconclusive):
             CTX = None
             raise
         except Exception as e:
@@ -480,7 +480,7 @@ def explore(fn, max_paths=20000, roots=None, catch=()):
             import traceback
             tb = traceback.extract_tb(e.__traceback__)
             where = [f for f in tb if '/abacusnbody/' in f.filename]
-            if not where:
+            if not where or (isinstance(e, AssertionError) and '/abacusnbody/' not in tb[-1].filename):
                 CTX = None
                 raise
             site = f'{where[-1].filename.split("abacusnbody/")[-1]}:{where[-1].name}:{where[-1].lineno}'
